@@ -422,6 +422,11 @@ def gen_control(run):
         continue
       for h in itertools.product("abn", repeat=n):
         yield (route, "".join(h))
+  # the ControlStream object itself goes out of scope (d) after some assignments; what was built from it lives on
+  for route in ("expr", "expr-rev", "iter-once", "mixer", "mixer-late"):
+    for n in range(0, 4):
+      for h in itertools.product("abn", repeat=n):
+        yield (route, "".join(h) + "dnnn")
   # any object is a legal value, None and other falsy ones included (z = None, f = 0.0, e = ())
   for route in ("direct", "iter-once"):
     for n in range(1, 7):
@@ -477,6 +482,12 @@ def run_control(case):
       if got != exp or type(got) is not type(exp):
         return bad("control:read", "ControlStream did not yield the value most recently assigned",
                    {"step": i, "value": exp}, {"value": got, "history": h})
+    elif c == "d":
+      # the program drops its own reference to the ControlStream (only what was derived from it is kept,
+      # e.g. a helper returned `data * gain`): the derived stream goes on with the last value
+      cs = None
+      import gc
+      gc.collect()
     else:
       cs.value = vals[c]
       cur = vals[c]
